@@ -4,7 +4,7 @@
      pkg/goDB/storage/gpfile/gpdir.go     ExtractTimestampMetadataSuffix, NewDirReader, Open (+ recoverDirPath,
                                           binarySearchPrefix), BlockTimeRange, ContainsTimestamp
      pkg/goDB/storage/gpfile/metadata.go  UnmarshalString (directory-name suffix)
-     pkg/goDB/storage/gpfile/gpfile.go    ReadBlockAtIndex, validateBlock
+     pkg/goDB/storage/gpfile/gpfile.go    ReadBlockAtIndex (incl. lastSeekPos / seek elision), validateBlock
    `.blockmeta` is decoded by the byte-exact C03 `unmarshal`.  Bytes are `list N`; a directory name is a byte
    list as well (any byte may occur in a name).  Every Go index / slice expression of goProbe's own code is an
    explicit bounds check answering `Panic`; the codecs (`dec`) are a Section variable (total, into option); the
@@ -320,34 +320,73 @@ Definition reslice (cap0 n : N) : res unit :=
 
 Definition buf_cap : N := 8192.
 
-Definition read_block (file : option bytes) (off : N) (b : colblk) : res bytes :=
+(* ReadBlockAtIndex, part 1: everything that happens before the file is positioned.  Some r = returns r right away
+   (no data expected; file cannot be opened, also after the retry; validateBlock rejects the geometry) *)
+Definition pre_check (file : option bytes) (off : N) (b : colblk) : option (res bytes) :=
   let len := cb_len b in let raw := cb_raw b in let enc := cb_enc b in
-  if raw =? 0 then Ok [] else
+  if raw =? 0 then Some (Ok []) else
   match file with
-  | None => Err                                                      (* cannot be opened (also after the retry) *)
+  | None => Some Err
   | Some f =>
     let size := N.of_nat (length f) in
-    (* validateBlock *)
-    if (size <? off) || (size - off <? len) then Err
-    else if (enc =? 1) && negb (raw =? len) then Err
-    else if negb (enc =? 1) && (max_raw enc len <? raw) then Err
-    else
-      res_bind (reslice buf_cap raw) (fun _ =>
-      if enc =? 1 then
-        let data := firstn (N.to_nat raw) (skipn (N.to_nat off) f) in  (* io.ReadFull *)
-        if (length data <? N.to_nat raw)%nat then Err else Ok data
-      else if (enc =? 2) || (enc =? 3) then
-        res_bind (reslice buf_cap len) (fun _ =>
-        let inb := firstn (N.to_nat len) (skipn (N.to_nat off) f) in   (* io.ReadFull *)
-        if (length inb <? N.to_nat len)%nat then Err
+    if (size <? off) || (size - off <? len) then Some Err
+    else if (enc =? 1) && negb (raw =? len) then Some Err
+    else if negb (enc =? 1) && (max_raw enc len <? raw) then Some Err
+    else None
+  end.
+
+(* ReadBlockAtIndex, part 2: decoding with the file positioned at `pos`; also answers the new position of the file
+   (io.ReadFull on the in-memory file: a short read fails without moving the position) *)
+Definition read_body (f : bytes) (pos : N) (b : colblk) : res bytes * N :=
+  let len := cb_len b in let raw := cb_raw b in let enc := cb_enc b in
+  match reslice buf_cap raw with
+  | Ok _ =>
+    if enc =? 1 then
+      let data := firstn (N.to_nat raw) (skipn (N.to_nat pos) f) in
+      if (length data <? N.to_nat raw)%nat then (Err, pos) else (Ok data, pos + raw)
+    else if (enc =? 2) || (enc =? 3) then
+      match reslice buf_cap len with
+      | Ok _ =>
+        let inb := firstn (N.to_nat len) (skipn (N.to_nat pos) f) in
+        if (length inb <? N.to_nat len)%nat then (Err, pos)
         else match inb with
-             | [] => Panic                                             (* &in[0] *)
-             | _ => match dec enc inb raw with
-                    | Some out => if N.of_nat (length out) =? raw then Ok out else Err
-                    | None => Err
-                    end
-             end)
-      else Err)                                                       (* encoder.New fails *)
+             | [] => (Panic, pos)                                      (* &in[0] *)
+             | _ => (match dec enc inb raw with
+                     | Some out => if N.of_nat (length out) =? raw then Ok out else Err
+                     | None => Err
+                     end, pos + len)
+             end
+      | Err => (Err, pos)
+      | Panic => (Panic, pos)
+      end
+    else (Err, pos)                                                   (* encoder.New fails *)
+  | Err => (Err, pos)
+  | Panic => (Panic, pos)
+  end.
+
+(* the block read at its own offset (no reader state): the specification of a block read *)
+Definition read_block (file : option bytes) (off : N) (b : colblk) : res bytes :=
+  match pre_check file off b with
+  | Some r => r
+  | None => match file with Some f => fst (read_body f off b) | None => Err end
+  end.
+
+(* the state a GPFile keeps between two reads: (position of the file, lastSeekPos) *)
+Definition fstate : Type := (N * N)%type.
+
+(* ReadBlockAtIndex as coded: the file is only positioned (Seek) if the block does not start at lastSeekPos, which
+   is advanced by Len after a successful read ("if the file is read continuously, do not seek") *)
+Definition read_block_st (st : fstate) (file : option bytes) (off : N) (b : colblk) : res bytes * fstate :=
+  match pre_check file off b with
+  | Some r => (r, st)
+  | None =>
+    match file with
+    | None => (Err, st)
+    | Some f =>
+      let pos := if snd st =? off then fst st else off in             (* seekPos != g.lastSeekPos -> Seek *)
+      let '(r, pos') := read_body f pos b in
+      (r, (pos', if is_ok r then off + cb_len b else off))            (* g.lastSeekPos += int64(block.Len) *)
+    end
   end.
 
 (* the columns a query reads, in the order of Query.columnIndices *)
@@ -371,6 +410,42 @@ Fixpoint read_cols (d : day) (m : meta) (b : nat) (cs : list nat) : res (option 
     | Ok data => res_bind (read_cols d m b r) (fun o => Ok (match o with Some l => Some ((c, data) :: l) | None => None end))
     | Err => Ok None
     | Panic => Panic
+    end
+  end.
+
+(* the same through the per-column reader states of an open day *)
+Fixpoint upd {A} (c : nat) (v : A) (l : list A) : list A :=
+  match l, c with
+  | [], _ => []
+  | _ :: t, O => v :: t
+  | x :: t, S c' => x :: upd c' v t
+  end.
+
+Definition st_of (sts : list fstate) (c : nat) : fstate := nth c sts (0, 0).
+
+Definition read_col_st (sts : list fstate) (d : day) (m : meta) (b : nat) (c : nat) : res bytes * list fstate :=
+  match nth_res c (m_cols m) with
+  | Ok col =>
+    match nth_res b (col_blocks col), nth_res b (col_offsets col) with
+    | Ok blk, Ok off =>
+      let '(r, st') := read_block_st (st_of sts c) (match nth_error (d_cols d) c with Some f => f | None => None end) off blk in
+      (r, upd c st' sts)
+    | _, _ => (Panic, sts)
+    end
+  | _ => (Panic, sts)
+  end.
+
+Fixpoint read_cols_st (sts : list fstate) (d : day) (m : meta) (b : nat) (cs : list nat)
+  : res (option (list (nat * bytes))) * list fstate :=
+  match cs with
+  | [] => (Ok (Some []), sts)
+  | c :: r =>
+    let '(x, sts1) := read_col_st sts d m b c in
+    match x with
+    | Ok data => let '(o, sts2) := read_cols_st sts1 d m b r in
+                 (res_bind o (fun o => Ok (match o with Some l => Some ((c, data) :: l) | None => None end)), sts2)
+    | Err => (Ok None, sts1)
+    | Panic => (Panic, sts1)
     end
   end.
 
@@ -409,24 +484,26 @@ Definition row_at (q : query) (ts : Z) (cols : list (nat * bytes)) (nv4 : nat) (
   res_bind (map_res (nth_res i) cnt) (fun cs =>
     Ok {| r_key := be64 (u64_of_i64 ts) ++ pad16 sip ++ pad16 dip ++ proto ++ dport; r_cnt := cs |}))))).
 
-(* one block of an open day *)
+(* what readBlocksAndEvaluate does with the columns of a block once they have been read *)
+Definition decide (q : query) (ts : Z) (nv4 : N) (rc : res (option (list (nat * bytes)))) : res decision :=
+  match rc with
+  | Panic => Panic
+  | Err => Ok Skipped                                                  (* not produced by read_cols *)
+  | Ok None => Ok Skipped
+  | Ok (Some cols) =>
+    if negb (checks_ok q cols nv4) then Ok Skipped
+    else
+      let cnt := map (fun c => bp_unpack (col_data cols c)) [4%nat; 5%nat; 6%nat; 7%nat] in
+      res_bind (map_res (row_at q ts cols (N.to_nat nv4) cnt) (seq 0 (bp_len (col_data cols 4))))
+               (fun rows => Ok (Used rows))
+  end.
+
+(* one block of an open day, every column read at its own offset (specification) *)
 Definition eval_block (q : query) (w : Z * Z) (dts : Z) (d : day) (m : meta) (b : nat) (bi : blockinfo) : res decision :=
   let ts := bi_ts bi in
   if ((ts <? fst w) || (snd w <? ts))%Z then Ok OutOfRange
   else if negb (contains_ts dts ts) then Ok Skipped                   (* fix: block outside its day *)
-  else
-    match read_cols d m b (query_cols q) return res decision with
-    | Panic => Panic
-    | Err => Ok Skipped                                                (* not produced by read_cols *)
-    | Ok None => Ok Skipped
-    | Ok (Some cols) =>
-      let nv4 := t_v4 (bi_traffic bi) in                                (* BlockTraffic[b].NumV4Entries *)
-      if negb (checks_ok q cols nv4) then Ok Skipped
-      else
-        let cnt := map (fun c => bp_unpack (col_data cols c)) [4%nat; 5%nat; 6%nat; 7%nat] in
-        res_bind (map_res (row_at q ts cols (N.to_nat nv4) cnt) (seq 0 (bp_len (col_data cols 4))))
-                 (fun rows => Ok (Used rows))
-    end.
+  else decide q ts (t_v4 (bi_traffic bi)) (read_cols d m b (query_cols q)).
 
 Fixpoint eval_blocks (q : query) (w : Z * Z) (dts : Z) (d : day) (m : meta) (b : nat) (bis : list blockinfo)
   : res (list decision) :=
@@ -435,6 +512,26 @@ Fixpoint eval_blocks (q : query) (w : Z * Z) (dts : Z) (d : day) (m : meta) (b :
   | bi :: r => res_bind (eval_block q w dts d m b bi) (fun x =>
                res_bind (eval_blocks q w dts d m (S b) r) (fun xs => Ok (x :: xs)))
   end.
+
+(* one block of an open day as coded: through the reader states *)
+Definition eval_block_st (sts : list fstate) (q : query) (w : Z * Z) (dts : Z) (d : day) (m : meta) (b : nat) (bi : blockinfo)
+  : res decision * list fstate :=
+  let ts := bi_ts bi in
+  if ((ts <? fst w) || (snd w <? ts))%Z then (Ok OutOfRange, sts)
+  else if negb (contains_ts dts ts) then (Ok Skipped, sts)
+  else let '(rc, sts') := read_cols_st sts d m b (query_cols q) in
+       (decide q ts (t_v4 (bi_traffic bi)) rc, sts').
+
+Fixpoint eval_blocks_st (sts : list fstate) (q : query) (w : Z * Z) (dts : Z) (d : day) (m : meta) (b : nat)
+  (bis : list blockinfo) : res (list decision) :=
+  match bis with
+  | [] => Ok []
+  | bi :: r => let '(x, sts') := eval_block_st sts q w dts d m b bi in
+               res_bind x (fun x => res_bind (eval_blocks_st sts' q w dts d m (S b) r) (fun xs => Ok (x :: xs)))
+  end.
+
+(* a freshly opened day: no column file open yet *)
+Definition init_states : list fstate := repeat (0, 0) 8.
 
 Definition decision_rows (x : decision) : list row := match x with Used rows => rows | _ => [] end.
 Definition is_skipped (x : decision) : bool := match x with Skipped => true | _ => false end.
@@ -450,7 +547,7 @@ Definition eval_open (q : query) (w : Z * Z) (dts : Z) (o : res (day * meta)) : 
   match o with
   | Panic => Panic
   | Err => Ok {| dr_rows := []; dr_processed := 0; dr_corrupted := 0; dr_dircorrupt := 1 |}   (* fix: skipped, counted *)
-  | Ok (d, m) => res_bind (eval_blocks q w dts d m 0 (m_blocks m)) (fun xs => Ok (day_of_decisions xs))
+  | Ok (d, m) => res_bind (eval_blocks_st init_states q w dts d m 0 (m_blocks m)) (fun xs => Ok (day_of_decisions xs))
   end.
 
 Definition eval_item (q : query) (fs : fsys) (w : Z * Z) (it : Z * bytes) : res dayres :=
